@@ -429,6 +429,18 @@ fn deep_case(ctx: &Ctx, tape: &[u8], rec: &Rec) -> Verdict {
     run_project(ctx, &Project { files: vec![("d.circom".into(), src.into_bytes())] }, &mut t, rec, "deep")
 }
 
+/// Include projects of C19 (cycles, diamonds, self includes, `-L` directories and files, symlinks,
+/// directory arguments): only termination and the exit status are judged here.
+fn include_project_case(ctx: &Ctx, tape: &[u8], rec: &Rec) -> Verdict {
+    let (out, cpu, described) = super::c19::run_generated_project(ctx, tape, "c01inc")?;
+    rec.class("include_projects");
+    rec.nontrivial(fnv(described.as_bytes()));
+    if let Err((why, sig)) = judge(&out, cpu) {
+        return Err(Bad::new(why).sig(sig).rendered(described));
+    }
+    Ok(())
+}
+
 /// Directory arguments: trees with ordinary files, non-Circom files, nested directories and symlink
 /// cycles (`self -> .`, `up -> ..`, a cycle between two directories).
 fn directory_cases(ctx: &Ctx, stats: &Stats) -> Vec<Failure> {
@@ -521,6 +533,7 @@ pub fn replay(ctx: &Ctx, check: &str, tape: &[u8]) -> Verdict {
         "grammar" => grammar_case(ctx, tape, &rec),
         "near_valid" => near_valid_case(ctx, tape, &rec),
         "deep" => deep_case(ctx, tape, &rec),
+        "include_projects" => include_project_case(ctx, tape, &rec),
         "bytes" => bytes_case(ctx, tape, &rec),
         "corpus" => file_case(ctx, &String::from_utf8_lossy(tape)),
         "directories" => {
@@ -571,6 +584,8 @@ pub fn run(ctx: &Ctx) -> i32 {
     outcome.absorb(&known, fails);
     let fails = run_tapes_opts(ctx, "deep", ctx.tier.pick(640, 8_000), 64, 8, &stats, |tape, rec| deep_case(ctx, tape, rec));
     outcome.absorb(&known, fails);
+    let fails = run_tapes_opts(ctx, "include_projects", ctx.tier.pick(1_000, 20_000), 1500, 16, &stats, |tape, rec| include_project_case(ctx, tape, rec));
+    outcome.absorb(&known, fails);
 
     let mut fuzz_extra = json!({"stage": "not run in the quick tier"});
     if ctx.tier == Tier::Thorough {
@@ -598,7 +613,7 @@ pub fn run(ctx: &Ctx) -> i32 {
         &outcome,
         EvidenceSpec {
             level: "exploration",
-            rule: "the real release binary is run (RLIMIT_CPU 120 s, RLIMIT_AS 4 GiB, cleared environment) on generated projects of 1-3 files x random supported options (curve, level, verbose, SARIF, allow list): (a) byte strings (raw bytes, ASCII, token soup over the grammar's terminals), (b) grammar-valid files — `wild` files using every production with no semantic discipline and semantically valid files, both under random layouts with comments/CRLF/non-ASCII, (d) small inputs (< 8 KiB) with one deeply nested construct — 16 shapes (operator chains in both directions, Horner, conditional expressions, prefix operators, array indices, calls, if/else-if/blocks/loops, parentheses, array literals, tuples, anonymous components) at depth 10..400 (array indices 40, loops 12, anonymous components 60), (c) near-valid inputs = 1-3 token-level mutations (delete, duplicate, swap, replace/insert a terminal, truncate, drop a declaration keyword, splice raw or invalid UTF-8 bytes) of (b); plus replay of all committed seed/reproducer files under all three curves and nine directory-argument cases (nested directories, non-Circom files, symlink cycles). Clean termination = exit 0 or 1 by itself, last stdout line is the summary, status matches the summary, no `panicked at` / stack overflow / allocation failure / signal; a resource-limit hit is re-run with 4x budget before it counts. Non-trivial = distinct input (content hash) that reached the analysis stage (>= 1 `analyzing` line).",
+            rule: "the real release binary is run (RLIMIT_CPU 120 s, RLIMIT_AS 4 GiB, cleared environment) on generated projects of 1-3 files x random supported options (curve, level, verbose, SARIF, allow list): (a) byte strings (raw bytes, ASCII, token soup over the grammar's terminals), (b) grammar-valid files — `wild` files using every production with no semantic discipline and semantically valid files, both under random layouts with comments/CRLF/non-ASCII, (d) small inputs (< 8 KiB) with one deeply nested construct — 16 shapes (operator chains in both directions, Horner, conditional expressions, prefix operators, array indices, calls, if/else-if/blocks/loops, parentheses, array literals, tuples, anonymous components) at depth 10..400 (array indices 40, loops 12, anonymous components 60), (c) near-valid inputs = 1-3 token-level mutations (delete, duplicate, swap, replace/insert a terminal, truncate, drop a declaration keyword, splice raw or invalid UTF-8 bytes) of (b); plus replay of all committed seed/reproducer files under all three curves and nine directory-argument cases (nested directories, non-Circom files, symlink cycles). (e) the include projects of C19 (cycles, diamonds and self includes over relative paths, `-L` directories and `-L` files, symlinks, directory arguments, files with other extensions or unsupported pragmas) with only termination and exit status judged. Clean termination = exit 0 or 1 by itself, last stdout line is the summary, status matches the summary, no `panicked at` / stack overflow / allocation failure / signal; a resource-limit hit is re-run with 4x budget before it counts. Non-trivial = distinct input (content hash) that reached the analysis stage (>= 1 `analyzing` line).",
             assumptions: vec![
                 "modest size: files <= 16 KiB; nesting depth <= 8 in the grammar generators and <= 400 in the nesting-depth domain (a single statement with >= 1000 operators overflowing the stack is recorded separately as a known finding)".into(),
                 "unbounded running is approximated by a CPU budget of 120 s (480 s on re-run; 30 s / 120 s for the nesting-depth inputs, which take about a second), far above the documented 2 x 10 s time box".into(),
